@@ -183,7 +183,7 @@ fn sample_inputs() -> Vec<(&'static str, Vec<u8>)> {
 pub fn valid_streams(thorough: bool) -> Vec<ValidStream> {
     let mut out = Vec::new();
     let inputs = sample_inputs();
-    let take = if thorough { inputs.len() } else { 3 };
+    let take = if thorough { inputs.len() } else { 2 };
     let mut push = |codec: Codec, what: String, r: Result<io::Result<Vec<u8>>, (String, String)>| {
         if let Ok(Ok(bytes)) = r {
             // keep only streams that the decoder accepts
@@ -207,8 +207,11 @@ pub fn valid_streams(thorough: bool) -> Vec<ValidStream> {
             let fl = cv::AacFlags::from_bits_truncate(bits);
             push(Codec::Aac(n), format!("flags {bits:#04x} of {name}"), vmc::catch(|| cv::aac_encode(fl, src)));
         }
-        push(Codec::Fqzcomp, format!("one record of {name}"), vmc::catch(|| cv::fqzcomp_encode(&[n], src)));
-        if n >= 10 {
+        // fqzcomp decoding costs >= 25 ms per call (model tables): two valid streams only
+        if *name == "abracadabra x3" {
+            push(Codec::Fqzcomp, format!("one record of {name}"), vmc::catch(|| cv::fqzcomp_encode(&[n], src)));
+        }
+        if n >= 10 && *name == "abracadabra x3" {
             push(Codec::Fqzcomp, format!("two records of {name}"), vmc::catch(|| cv::fqzcomp_encode(&[10, n - 10], src)));
         }
         push(Codec::Gzip(n), format!("gzip of {name}"), Ok(Ok(mutate::gzip(src))));
@@ -329,7 +332,7 @@ impl Plan {
         let mut t = 0u64;
         for s in &streams {
             stream_starts.push(t);
-            t += s.bytes.len() as u64 * 255 + s.bytes.len() as u64;
+            t += s.bytes.len() as u64 * n_sub + s.bytes.len() as u64;
         }
         Self { thorough, docs, prep, trunc: Table::new(trunc), subst: Table::new(subst), fields: Table::new(fields), n_sub, codecs, max_len, streams, stream_starts, stream_total: t }
     }
@@ -473,15 +476,19 @@ impl Plan {
             let st = &self.streams[r];
             let k = case - self.stream_starts[r];
             let len = st.bytes.len() as u64;
-            if k < len * 255 {
-                let off = (k / 255) as usize;
+            let ns = self.n_sub;
+            if k < len * ns {
+                let off = (k / ns) as usize;
                 let mut b = st.bytes.clone();
-                let v = b[off].wrapping_add(1 + (k % 255) as u8);
+                let v = match self.sub_value(b[off], k % ns) {
+                    Some(v) => v,
+                    None => b[off] ^ 0xaa, // duplicate slot of the quick alphabet: use one more value
+                };
                 let what = format!("valid stream ({}) with byte {off}: {:#04x} -> {v:#04x}", st.what, b[off]);
                 b[off] = v;
                 (st.codec, b, what)
             } else {
-                let cut = (k - len * 255) as usize;
+                let cut = (k - len * ns) as usize;
                 (st.codec, st.bytes[..cut].to_vec(), format!("valid stream ({}) truncated to {cut} bytes", st.what))
             }
         }
